@@ -496,7 +496,7 @@ func (s *cluSRClient) StartCheckpoint(ctx context.Context, id uint64) error {
 	s.w.startedFor[id][s.node.Id] = true
 	s.w.mu.Unlock()
 	s.w.net.record("job", s.node.Host, "start-ckpt", fmt.Sprint(id))
-	return s.w.net.rpc("job", s.node.Host, "StartCheckpoint", func() error {
+	err := s.w.net.rpc("job", s.node.Host, "StartCheckpoint", func() error {
 		wk := s.worker()
 		if wk == nil {
 			return errTransport
@@ -504,6 +504,13 @@ func (s *cluSRClient) StartCheckpoint(ctx context.Context, id uint64) error {
 		wk.sr.HandleStartCheckpoint(ctx, id)
 		return nil
 	})
+	if err != nil && s.w.net.alive(s.node.Host) {
+		// triage tag for the known finding "a checkpoint that could not be started at one
+		// member stays pending for ever" (DESIGN.md section 15)
+		s.w.c.AddTag("a StartCheckpoint call to a live source runner failed")
+		s.w.c.Probe("start-checkpoint-failed-at-live-runner")
+	}
+	return err
 }
 
 // --- delivery log (what each source runner delivered to each operator, in order) ---
